@@ -19,7 +19,7 @@ func init() {
 			"(c) synonyms — in the scanner's decision table `&&` yields the token type of the keyword এবং and `||` that of বা; token lexemes are control-irrelevant (see d). " +
 			"(d) renaming — values read from a Lexeme field flow only to map-key positions compared by equality (scope tables, the reserved-name table, object property names and the literal's name list), to diagnostics and String() methods; they are never compared with a constant, measured, indexed, converted, ordered or turned into a Borno value. " +
 			"(e) parentheses — the Grouping clause returns exactly the results of evaluating its content on every path, and no type test on an AST node outside eval's dispatch distinguishes node kinds except at the documented places (assignment-target switch, the `ধরি` literal test, getLineNumber). " +
-			"(f) never-executed code: not decided (no structural handle beyond C03's scoping).",
+			"(f) never-executed code — necessary conditions on the parser only: every parse function rejects by its documented rules alone, and the parser keeps no state between constructs except its position (who-writes rule over the structs that live as long as the parser).",
 		Rule:    "obligation = (family, source field or site); non-trivial: every flow and every type-test site",
 		Trusted: []string{"go/ssa def-use chains", "the list of allowed sinks in c18.go"},
 	})
@@ -505,7 +505,16 @@ func checkC18(p *Prog, l *Ledger) {
 			l.Discharge("C18/b-digit-script", "C10-rules", "", fmt.Sprintf("all %d obligations of C10 (digit table, classifier, literal shape, transliteration before every ParseFloat) hold", len(scratch.Obls)), true)
 		}
 	}
-	l.Note("(f) never-executed code is not decided by any rule")
+	// (f) never-executed code — a necessary condition: text that never runs can change what the program does only through
+	// the parser (the evaluator does not visit it: C05/C03), so (1) each parse function rejects by its documented rules
+	// only (C08's filter rule) and (2) the parser remembers nothing from one construct to the next except its position
+	// (so whether and how a construct is accepted cannot depend on declarations standing elsewhere in the text)
+	{
+		pi := getParser(p)
+		l.AsOnly(map[string]string{"C08/S3-filters": "C18/f-unreachable-code/documented-rejections"}, func() { checkSemanticFilters(p, l, pi) })
+		checkParserMemory(p, l, "C18/f-unreachable-code/parser-memory")
+	}
+	l.Note("(f) never-executed code: decided only as far as the parser goes (documented rejections, no memory between constructs); that the evaluator leaves unvisited code alone is C05's and C03's business")
 }
 
 // checkNodeKindTests: no type test on an AST node outside eval's dispatch except at the documented places.
